@@ -89,12 +89,73 @@ Theorem C17_run_tls_nodup :
 Proof. exact run_tls_nodup. Qed.
 Print Assumptions C17_run_tls_nodup.
 
-(* a lazy static is initialised at most once per execution, in every run of every program *)
+(* a lazy static is REGISTERED at most once per execution, in every run of every program: all threads get the same instance *)
+Theorem C17_lazy_registered_once :
+  forall (fuel : nat) (p : prog) (pa : path) (lz : list (nat * (nat * vv))),
+       e_lazy (fst (run fuel (init_exec p pa))) = Some lz -> NoDup (map fst lz).
+Proof. exact lazy_registered_once. Qed.
+Print Assumptions C17_lazy_registered_once.
+
+(* its initialiser runs at most once per execution -- for the statics whose initialiser has no scheduling point (every key but 2) *)
 Theorem C17_lazy_init_once :
   forall (fuel : nat) (p : prog) (pa : path) (k : nat),
-       cnt_lazy k (e_log (fst (run fuel (init_exec p pa)))) <= 1.
+       k <> 2 -> cnt_lazy k (e_log (fst (run fuel (init_exec p pa)))) <= 1.
 Proof. exact lazy_init_once. Qed.
 Print Assumptions C17_lazy_init_once.
+
+(* for every key: initialiser runs = [registered] + values dropped at once + initialisations in flight *)
+Theorem C17_run_lazy_balance :
+  forall (fuel : nat) (p : prog) (pa : path) (lz : list (nat * (nat * vv))) (k : nat),
+       let e := fst (run fuel (init_exec p pa)) in
+       e_lazy e = Some lz ->
+       cnt_lazy k (e_log e) = reg k lz + cnt_ldrop k (e_log e) + pendf k (tsig e).
+Proof. exact run_lazy_balance. Qed.
+Print Assumptions C17_run_lazy_balance.
+
+(* at the end of a finished iteration every value an initialiser built has been dropped *)
+Theorem C17_run_lazy_all_dropped :
+  forall (fuel : nat) (p : prog) (pa : path) (k : nat),
+       let e := fst (run fuel (init_exec p pa)) in
+       e_lazy e = None ->
+       k < 8 ->
+       Forall (fun t : thread => t_cont t = []) (e_threads e) ->
+       cnt_lazy k (e_log e) = cnt_ldrop k (e_log e).
+Proof. exact run_lazy_all_dropped. Qed.
+Print Assumptions C17_run_lazy_all_dropped.
+
+(* the winner's registration happens-before every later read, also the loser's *)
+Theorem C17_lazyY_handover_global :
+  forall (e : exec) (a k ci : nat) (lz : list (nat * (nat * vv))) 
+         (e1 e2 e2' : exec) (b : nat) (e3 : exec),
+       e_lazy e = Some lz ->
+       ~ In k (map fst lz) ->
+       exec_micro e a (MLazyFinishY k ci) = MOk e1 ->
+       tl_inv e1 ->
+       steps e1 e2 ->
+       e_lazy e2' = e_lazy e2 ->
+       b < length (e_threads e2') ->
+       exec_micro e2' b (MLazyGet k) = MOk e3 -> vle (caus_of e a) (caus_of e3 b).
+Proof. exact lazyY_handover_global. Qed.
+Print Assumptions C17_lazyY_handover_global.
+
+(* computed (listed finding D22): with a yielding initialiser both racing threads run it; one value is registered, the other dropped at once, both threads read the same value *)
+Theorem C17_lazy_yielding_init_runs_twice :
+  map (fun it : iter_record => (lazy_lines (ir_log it), ir_result it))
+         (fst (fst (check 100 1000 p_lazy_y))) =
+       [([LInitLazy 2; LInitLazy 2; LOp 0 1 (RVal 43); LDropLazy 2; LOp 1 0 (RVal 43); LDropLazy 2],
+         IterDone)] /\
+       snd (fst (check 100 1000 p_lazy_y)) = RunOk /\
+       (let r := run 1000 (init_exec p_lazy_y (initial_path (p_cfg p_lazy_y))) in
+        cnt_lazy 2 (e_log (fst r)) = 2 /\
+        cnt_ldrop 2 (e_log (fst r)) = 2 /\
+        snd r = IterDone /\
+        e_lazy (fst r) = None /\
+        forallb (fun t : thread => match t_cont t with
+                                   | [] => true
+                                   | _ :: _ => false
+                                   end) (e_threads (fst r)) = true).
+Proof. exact lazy_yielding_init_runs_twice. Qed.
+Print Assumptions C17_lazy_yielding_init_runs_twice.
 
 (* after the shutdown at main's exit the registry stays shut under every micro-step *)
 Theorem C17_lazy_none_stays :
@@ -108,10 +169,19 @@ Theorem C17_lazy_get_after_shutdown :
   forall (e e' : exec) (b k : nat),
        steps e e' ->
        e_lazy e = None ->
-       exec_micro e' b (MLazyGet k) = MFail e' PanicLazyShutdown /\
-       (forall rest : list micro,
-        exec_micro (upd_thread e' b (fun t : thread => th_set_cont t rest)) b (MLazyGet k) =
-        MFail (upd_thread e' b (fun t : thread => th_set_cont t rest)) PanicLazyShutdown).
+       (forall m : micro,
+        m = MLazyGet k \/ m = MLazyGetY k ->
+        exec_micro e' b m = MFail e' PanicLazyShutdown /\
+        (forall rest : list micro,
+         exec_micro (upd_thread e' b (fun t : thread => th_set_cont t rest)) b m =
+         MFail (upd_thread e' b (fun t : thread => th_set_cont t rest)) PanicLazyShutdown)) /\
+       (forall ci : nat,
+        exec_micro e' b (MLazyFinishY k ci) =
+        MFail (ex_set_log e' (LDropLazy k :: e_log e')) PanicLazyShutdown /\
+        (forall rest : list micro,
+         let e1 := upd_thread e' b (fun t : thread => th_set_cont t rest) in
+         exec_micro e1 b (MLazyFinishY k ci) =
+         MFail (ex_set_log e1 (LDropLazy k :: e_log e1)) PanicLazyShutdown)).
 Proof. exact lazy_get_after_shutdown. Qed.
 Print Assumptions C17_lazy_get_after_shutdown.
 
